@@ -52,7 +52,13 @@ def gen_timeline(rng, length=14):
                                   members=sorted(members.items()) if complete else []))
         if other is not None:
             infos.append(dict(shard=1, replica=other, leader=False, cci=v, incomplete=True, pending=False, members=[]))
-        return ("R", dict(addr=a, rpc=100 + a, region=1, plog_incl=False, plog=[], shard_ids=[1] if infos else [], infos=infos))
+        ids = [1] if infos else []
+        x = rng.random()
+        if x < 0.15:
+            ids = [rng.choice([900, 100001, 1 + (1 << 32)]) + i for i in range(rng.choice([1, 1, 2, 3]))]      # names shards the view does not know, omits the managed one
+        elif x < 0.25:
+            ids = ids + [rng.choice([900, 100001])]
+        return ("R", dict(addr=a, rpc=100 + a, region=1, plog_incl=False, plog=[], shard_ids=ids, infos=infos))
 
     silent = set(a for a in addrs if rng.random() < 0.25)          # their replicas never report
     talk = [a for a in hosts if a not in silent]
@@ -573,7 +579,7 @@ def fleet_part(ck, eng, dbbin):
 def run(ck):
     ck.cov["rule"] = ("db engine: PRNG view traces (profile of C04: 2..6 hosts, 1..3 shards, evolving memberships, stale/pending/incomplete entries) "
                       "and directed timelines (one shard of 1..6 members incl. even sizes, members that never report, hosts that stop and resume, "
-                      "entries naming a replica of another host, reports at logical time 0) with tick runs of ttl/step-1, ttl/step, ttl/step+1; "
+                      "entries naming a replica of another host, reports at logical time 0, shard-id lists naming shards unknown to the view and omitting the managed one) with tick runs of ttl/step-1, ttl/step, ttl/step+1; "
                       "SCHEDULER_CONTEXT and SHARD_STATES observed after every event. classes engine: every distinct context the DB produced plus "
                       "hand-built contexts with each stored-time pattern {0,1,now-ttl-step,now-ttl-1,now-ttl,now-ttl+1,now-ttl+step,now-1,now} x "
                       "first-seen {0,>0} and every (members 1..6, healthy, failed, waiting) count with the healthy members exactly on the timeout. "
